@@ -1873,6 +1873,7 @@ func (bc *Blockchain) AddBlock(block *block.Block) error {
 			return errors.New("invalid block: MerkleRoot mismatch")
 		}
 		mp = mempool.New(len(block.Transactions), false, nil)
+		var added int
 		for _, tx := range block.Transactions {
 			var err error
 			// Transactions are verified before adding them
@@ -1883,6 +1884,15 @@ func (bc *Blockchain) AddBlock(block *block.Block) error {
 				err = mp.Add(tx, bc)
 			} else {
 				err = bc.verifyAndPoolTx(tx, mp, bc)
+			}
+			if err == nil {
+				added++
+				// The scratch pool replaces conflicting transactions like
+				// the regular one does, but a block can't contain both.
+				if mp.Count() != added {
+					err = fmt.Errorf("%w: conflicts with another transaction of the block", ErrMemPoolConflict)
+					added = mp.Count()
+				}
 			}
 			if err != nil {
 				if bc.config.VerifyTransactions {
